@@ -14,13 +14,15 @@
  *   M <svc> <level> <esc> <hex> | ok <val> <missing> | err <kind>
  *   G <svc> <cmd> <nargs|-> <arg>* | ok sh:<hex> | ok argv:<list> | err <kind>
  *   X <svc> <cmd> <nargs|-> <arg>* <exit> <outhex> <timeout_s> <sleep_ds>
- *        | <ran> <argv list> <none|sh:<hex>|argv:<list>> <state> <exit> <outhex> <perf list> <gone>
+ *        | <ran> <argv list> <none|sh:<hex>|argv:<list>> <state> <exit> <outhex> <perf list> <gone> <markerhex>
+ *          (marker = the text the implementation appends for that exit status; oracle input, wording not compared;
+ *           `err <kind>`: the kind is informational, the driver compares failure against failure only)
  *   H <svc> <level> <esc> <hex> | <st1> <v1> <m1> <cache> <st2> <v2> <m2>      ResolveMacros twice: fill resolvedMacros, then use it
  *   K <svc> <cmd> <nargs|-> <arg>* | <st1> <c1> <cache> <st2> <c2>              ResolveArguments twice (fill, use)
- *   Y <svc> <cmd> <nargs|-> <arg>* <exit> <outhex> | <cache> <fillRan> <direct: 8 fields as X> <cached: 8 fields as X>
+ *   Y <svc> <cmd> <nargs|-> <arg>* <exit> <outhex> | <cache> <fillRan> <direct: 9 fields as X> <cached: 9 fields as X>
  *        full PluginCheckTask::ScriptFunc three times: direct, fill (resolvedMacros, useResolvedMacros=false: must not run), cached
  *        cache := <namehex>=<val>+… | ~        st := ok | err
- *   P <exit> <outhex> | <state> <exit> <outhex> <perf list>          ProcessFinishedHandler on a synthetic result
+ *   P <exit> <outhex> | <markerhex> <state> <exit> <outhex> <perf list>          ProcessFinishedHandler on a synthetic result
  *   E <exit> | <state>                                                ExitStatusToState
  *   W <hex> | <ran> <argv list>                                       real `sh -c "<plugin> <text>"` through Process
  *
@@ -374,6 +376,26 @@ static Dictionary::Ptr PluginEnv(const B& dump, int exitCode, const B& out, int 
 
 static B l_LastDump;
 
+/* The marker text the implementation appends for this exit status (wording is not part of the property: it is read
+ * from the implementation — the finished-handler run on an empty output — and handed to the model as an input). */
+static B SuffixFor(int exitCode)
+{
+	static std::map<int, B> cache;
+	auto it = cache.find(exitCode);
+	if (it != cache.end()) return it->second;
+	CheckResult::Ptr cr = new CheckResult();
+	ProcessResult pr;
+	pr.PID = 1;
+	pr.ExecutionStart = Utility::GetTime();
+	pr.ExecutionEnd = pr.ExecutionStart;
+	pr.ExitStatus = exitCode;
+	pr.Output = String();
+	get(RobFinished())(l_Host, cr, new Array({ String("x") }), pr);
+	B r = cr->GetOutput().GetData();
+	cache[exitCode] = r;
+	return r;
+}
+
 static B RunCheck(bool svc, const Value& cmd, const Dictionary::Ptr& args, int exitCode, const B& out, int timeoutS, int sleepDs,
 	const Dictionary::Ptr& macros, bool useResolved, bool wait)
 {
@@ -420,7 +442,8 @@ static B RunCheck(bool svc, const Value& cmd, const Dictionary::Ptr& args, int e
 	}
 	std::ostringstream o;
 	o << (ran ? 1 : 0) << " " << HexList(argv) << " " << CmdTok(cr->GetCommand()) << " " << (int)cr->GetState() << " "
-	  << (long)cr->GetExitStatus() << " " << Hex(cr->GetOutput().GetData()) << " " << HexList(perf) << " " << gone;
+	  << (long)cr->GetExitStatus() << " " << Hex(cr->GetOutput().GetData()) << " " << HexList(perf) << " " << gone
+	  << " " << Hex(SuffixFor(exitCode));
 	unlink(dump.c_str());
 	unlink((dump + ".pid").c_str());
 	return o.str();
@@ -465,7 +488,7 @@ static B DoP(int exitCode, const B& out)
 		for (const Value& p : pd) perf.push_back(static_cast<String>(p).GetData());
 	}
 	std::ostringstream o;
-	o << (int)cr->GetState() << " " << (long)cr->GetExitStatus() << " " << Hex(cr->GetOutput().GetData()) << " " << HexList(perf);
+	o << Hex(SuffixFor(exitCode)) << " " << (int)cr->GetState() << " " << (long)cr->GetExitStatus() << " " << Hex(cr->GetOutput().GetData()) << " " << HexList(perf);
 	return o.str();
 }
 
